@@ -508,6 +508,8 @@ def build_program(b):
         ms = [{"name": "dv_make", "attrs": [], "lifetimes": [], "self": None, "params": [], "ret": ["struct", s["name"], lts]}]
         if not s["out"]:
             ms.append({"name": "dv_take", "attrs": [], "lifetimes": [], "self": None, "params": [["v", ["struct", s["name"], [None] * len(lts)], []]], "ret": None})
+            # the struct as an optional parameter: under the spec ABI a pointer to {payload, is_ok}
+            ms.append({"name": "dv_take_opt", "attrs": [], "lifetimes": [], "self": None, "params": [["v", ["opt", ["struct", s["name"], [None] * len(lts)], "std"], []]], "ret": None})
         s2["impls"] = [{"attrs": [], "methods": ms}]
         items.append(s2)
     prog = {"modules": [{"name": "ffi", "attrs": [], "uses": [], "items": items}], "extra_top": [], "config_attrs": []}
@@ -665,6 +667,30 @@ def check_batch(art, work, b):
                             msgs.append(("flatten", "spec ABI passes %d arguments for a by-value struct: %s" % (len(rc_["takeArgs"]), json.dumps(rc_["takeArgs"])[:200])))
                         elif (sc is None or sc > 1) and not wraps_primitive(items, s) and [size, align] not in rc_["takeAllocs"]:
                             msgs.append(("size", "by-value struct (spec ABI) was not placed in a buffer of size %d align %d (allocations %s)" % (size, align, rc_["takeAllocs"][:3])))
+            # (f) optional by-value argument (spec ABI): one pointer argument; the payload bytes and the is_ok byte right behind them
+            if not s["out"] and b["abi"] == "spec" and not any(k_ == "slice" for _, _, k_, _ in lv):
+                for which, flag in (("takeOptSome", 1), ("takeOptNone", 0)):
+                    got = rc_.get(which)
+                    if got is None:
+                        continue
+                    if "error" in got:
+                        msgs.append(("opt-param", "passing Option<%s> (%s) threw: %s" % (name, which[7:], got["error"])))
+                        continue
+                    a = got["args"]
+                    if len(a) != 1 or not isinstance(a[0], int) or a[0] <= 0 or a[0] % align != 0:
+                        msgs.append(("opt-param", "Option<%s> (%s) must be passed as one pointer to {payload, is_ok} aligned to %d, the export received %s" % (name, which[7:], align, json.dumps(a)[:120])))
+                        continue
+                    mem = bytes.fromhex(got["bytes"])
+                    if mem[size] != flag:
+                        msgs.append(("opt-param", "Option<%s> (%s): the is_ok byte behind the %d-byte payload is %d, expected %d" % (name, which[7:], size, mem[size], flag)))
+                    elif flag:
+                        for off, sz, kind, payload in lv:
+                            if mem[off:off + sz] != buf[off:off + sz]:
+                                msgs.append(("opt-param", "Option<%s> (Some): payload bytes at offset %d..%d are %s, Rust's repr(C) layout has %s" % (name, off, off + sz, mem[off:off + sz].hex(), buf[off:off + sz].hex())))
+                                break
+                    need = (size + 1 + align - 1) // align * align
+                    if not any(al[0] >= need for al in got["allocs"]):
+                        msgs.append(("opt-param", "Option<%s>: no allocation of at least %d bytes (payload %d + flag, aligned to %d) was made: %s" % (name, need, size, align, got["allocs"][:3])))
             if msgs:
                 for kind, m in msgs[:2]:
                     results.append((s, ci, False, kind, m, nt))
